@@ -355,3 +355,145 @@ Theorem C13_dictionary_word_not_oov :
     wid_is_oov (wid_new dic word) = false /\ dictionary_id (wid_new dic word) = Z.of_N dic.
 Proof. exact (dict_wid_not_oov fact_word_id_dic_shift fact_word_mask fact_oov_dic_id). Qed.
 Print Assumptions C13_dictionary_word_not_oov.
+
+(* ================================================================== OOV morphemes over the real buffer state; providers
+   that cannot fail; the part of speech through the best path *)
+From SudachiVerif Require Model.Buffer Proofs.BufferProofs Proofs.BufferCharProofs Model.OovBuffer Proofs.OovBufferProofs
+     Proofs.OovTotal Proofs.OovBestPath Model.Tokenizer Model.LexSet Proofs.EndToEnd Proofs.LookupLattice Proofs.PipelineFull
+     Model.Normalize.
+
+Module Bf := Model.Buffer.
+Module OB := Model.OovBuffer.
+Module Tk := Model.Tokenizer.
+Module BP := Proofs.OovBestPath.
+
+Fact fact_buffer_cfg_ok : Bf.cfg_ok Bf.the_cfg = true.
+Proof. vm_compute. reflexivity. Qed.
+Fact fact_created_max_value : MAXV = 64.
+Proof. vm_compute. reflexivity. Qed.
+
+(* For every original text o, every buffer state s reachable from it by any stack of edit batches (Reach: start_build, then
+   commits of well-formed batches -- length-changing normalisations included), and every result node n whose character and
+   byte coordinates in the NORMALISED text agree: the Morpheme of an OOV node (word id WordId::oov(pos)) reports
+     is_oov, dictionary -1, part of speech pos,
+     surface            = the ORIGINAL bytes between the images b, e of the node's ends under the offset map
+                          (b = Morpheme::begin, e = Morpheme::end: C08_morpheme_offsets),
+     normalized_form = dictionary_form = reading_form = the NORMALISED bytes of the node's range (curr_slice_c). *)
+Theorem C13_oov_morpheme_fields_buffer :
+  forall o s n pos,
+    Bf.wf_text o = true -> Proofs.BufferProofs.Reach Bf.the_cfg o s -> Proofs.BufferCharProofs.rnode_ok (Bf.cur s) n ->
+    pos < 65536 ->
+    exists b e,
+      Bf.morpheme_begin s n = Some b /\ Bf.morpheme_end s n = Some e /\ (b <= e)%nat /\
+      Bf.curr_slice_c (Bf.cur s) (Bf.rn_bc n) (Bf.rn_ec n) = Some (Bf.byte_slice (Bf.cur s) (Bf.rn_bb n, Bf.rn_eb n)) /\
+      OB.oov_morpheme_buf s (wid_oov pos) n =
+      Some (mkMV true (-1)%Z pos (Bf.byte_slice o (b, e))
+                 (Bf.byte_slice (Bf.cur s) (Bf.rn_bb n, Bf.rn_eb n)) (Bf.byte_slice (Bf.cur s) (Bf.rn_bb n, Bf.rn_eb n))
+                 (Bf.byte_slice (Bf.cur s) (Bf.rn_bb n, Bf.rn_eb n))).
+Proof.
+  exact (Proofs.OovBufferProofs.oov_morpheme_fields_buffer_generic fact_word_id_dic_shift fact_word_mask fact_oov_dic_id
+           fact_oov_info_fields fact_form_fallbacks fact_oov_dictionary_id Bf.the_cfg fact_buffer_cfg_ok).
+Qed.
+Print Assumptions C13_oov_morpheme_fields_buffer.
+
+(* and when the normalised text is the UTF-8 encoding of the code points t (always: C07 / PipelineFull.reachU_utf8), those
+   normalised bytes are the encoding of t's code points bc..ec -- the lattice's character range of the node *)
+Theorem C13_normalised_slice_is_enc :
+  forall (t : list N) bc ec, t <> [] -> (bc <= ec)%nat -> (ec <= List.length t)%nat ->
+    Bf.curr_slice_c (Proofs.PipelineFull.enc t) bc ec = Some (Proofs.PipelineFull.enc (Model.Normalize.slice t bc ec)).
+Proof. exact (Proofs.OovBufferProofs.curr_slice_c_enc Bf.the_cfg fact_buffer_cfg_ok). Qed.
+Print Assumptions C13_normalised_slice_is_enc.
+
+(* ------------------------------------------------------------------ when does a provider fail? *)
+(* MeCab and Simple never return an error or panic at an offset inside the text; Regex neither unless it runs in debug mode
+   (provider_total: x_debug = false, the oracle answers for every offset) *)
+Theorem C13_provider_never_fails :
+  forall p cs off other result,
+    (off < List.length cs)%nat -> Proofs.OovTotal.provider_total p (List.length cs) ->
+    exists ns, provide p (mk_ctx cs) off other result = ROk ns.
+Proof. exact (Proofs.OovTotal.provide_total fact_continuity_forward fact_regex_ignores_empty_match). Qed.
+Print Assumptions C13_provider_never_fails.
+
+(* the only error of the Regex provider, and its cause: debug mode and a match that does not start at the offset *)
+Theorem C13_regex_error_cause :
+  forall x conts off other result,
+    (off < List.length conts)%nat -> (off < List.length (x_matches x))%nat ->
+    (exists ns, regex_provide x conts off other result = ROk ns)
+    \/ (regex_provide x conts off other result = RErr /\ x_debug x = true
+        /\ exists mlen, nth_error (x_matches x) off = Some (Some (false, mlen))).
+Proof. exact (Proofs.OovTotal.regex_result fact_regex_ignores_empty_match). Qed.
+Print Assumptions C13_regex_error_cause.
+
+(* the created-words carrier stays a u64 whatever lengths are added (bit min(len-1, 63)), and adding positive lengths
+   never fails: no overflow below or above any limit *)
+Theorem C13_created_words_fit_u64 :
+  forall lens cw cw', cw < 2 ^ 64 -> cw_add_all cw lens = Some cw' -> cw' < 2 ^ 64.
+Proof. exact (Proofs.OovTotal.cw_add_all_u64 fact_created_max_value). Qed.
+Print Assumptions C13_created_words_fit_u64.
+
+Theorem C13_created_words_total :
+  forall lens cw, (forall l, In l lens -> (0 < l)%nat) -> exists cw', cw_add_all cw lens = Some cw'.
+Proof. exact Proofs.OovTotal.cw_add_all_total. Qed.
+Print Assumptions C13_created_words_total.
+
+(* hence the regular pass of a position succeeds: well-formed dictionary candidates, any providers without a debug-mode
+   regex whose oracle stays in the window -- the hypothesis `providers_ok` of C13_lattice_total_oov *)
+Theorem C13_providers_never_fail :
+  forall cs ps off dict,
+    (off < List.length cs)%nat -> Forall (cand_wf (List.length cs) off) dict ->
+    (forall p, In p ps -> Proofs.OovTotal.provider_total p (List.length cs) /\ provider_oracle_ok p (List.length cs)) ->
+    exists st, normal_pass (mk_ctx cs) ps off dict = ROk st.
+Proof.
+  exact (fun cs ps off dict =>
+           Proofs.OovTotal.providers_never_fail fact_continuity_forward fact_regex_ignores_empty_match OF.oov_gate_mask cs ps off dict).
+Qed.
+Print Assumptions C13_providers_never_fail.
+
+(* ... and the third conjunct of H7 of C01_tokenizer_end_to_end, for every tokenizer whose provider list has no debug-mode
+   regex (under its H5, H6 and the first conjunct of H7) *)
+Theorem C13_e2e_providers_ok :
+  forall tk t,
+    Forall Proofs.EndToEnd.scalar t -> (forall L, In L (Tk.tk_lexs tk) -> Proofs.LookupLattice.lex_keys_utf8 L) ->
+    (forall q, In q (Tk.tk_provs tk) ->
+       Proofs.OovTotal.provider_total q (List.length t) /\ provider_oracle_ok q (List.length t)) ->
+    forall p, (p < List.length t)%nat ->
+      exists st, normal_pass (mk_ctx (Tk.classes tk t)) (Tk.tk_provs tk) p (Tk.dict_onodes Bf.the_cfg tk t p) = ROk st.
+Proof.
+  exact (BP.e2e_providers_ok fact_continuity_forward fact_regex_ignores_empty_match Bf.the_cfg fact_buffer_cfg_ok).
+Qed.
+Print Assumptions C13_e2e_providers_ok.
+
+(* ------------------------------------------------------------------ the part of speech through the best path *)
+(* every node of the path that tokenize_model reads back from the lattice (pre_split, before path rewriting), with the word
+   id threaded along by loop_ids / wid_at, is a dictionary entry found by the lookup at its position, or a candidate of one of
+   the configured providers: its word id is WordId::oov(part of speech of one of that provider's templates) and it carries
+   that template's ids and cost *)
+Theorem C13_oov_pos_on_best_path :
+  forall tk t a,
+    Forall Proofs.EndToEnd.scalar t -> (forall L, In L (Tk.tk_lexs tk) -> Proofs.LookupLattice.lex_keys_utf8 L) ->
+    (forall q, In q (Tk.tk_provs tk) -> provider_oracle_ok q (List.length t)) ->
+    Tk.pre_split Bf.the_cfg tk t = Bf.Ok a -> forall nd w, In (nd, w) (Tk.pr_path a) ->
+    (exists wc, In wc (Tk.dict_ids Bf.the_cfg tk t (L.nbeg nd)) /\ w = fst wc /\ L.nend nd = snd wc)
+    \/ (exists q o, In q (Tk.tk_provs tk) /\ In o (BP.provider_templates q) /\ w = Model.LexSet.oov_id (o_pos o)
+                    /\ L.nleft nd = o_left o /\ L.nright nd = o_right o /\ L.ncost nd = o_cost o).
+Proof.
+  exact (BP.oov_pos_on_best_path_e2e fact_continuity_forward fact_regex_ignores_empty_match Bf.the_cfg fact_buffer_cfg_ok).
+Qed.
+Print Assumptions C13_oov_pos_on_best_path.
+
+(* so an OOV word id on the path names the part of speech of a template of a configured provider (given that the lookup
+   returns dictionary ids only: C04/C12) *)
+Theorem C13_oov_id_on_best_path :
+  forall tk t a,
+    (forall p m, In m (Tk.offered_at Bf.the_cfg tk t p) -> Proofs.BuildLatticeProofs.node_wf (List.length t) p m) ->
+    Tk.pre_split Bf.the_cfg tk t = Bf.Ok a -> forall nd w, In (nd, w) (Tk.pr_path a) -> Model.LexSet.is_oov w = true ->
+    (forall wc, In wc (Tk.dict_ids Bf.the_cfg tk t (L.nbeg nd)) -> Model.LexSet.is_oov (fst wc) = false) ->
+    exists q o, In q (Tk.tk_provs tk) /\ In o (BP.provider_templates q) /\ w = Model.LexSet.oov_id (o_pos o)
+                /\ L.nleft nd = o_left o /\ L.nright nd = o_right o /\ L.ncost nd = o_cost o.
+Proof. exact (fun tk t a H => BP.oov_id_on_best_path Bf.the_cfg tk t H a). Qed.
+Print Assumptions C13_oov_id_on_best_path.
+
+(* the two models of WordId::oov agree (Model/LexSet.v with C12's facts, Model/Oov.v with C13's) *)
+Theorem C13_oov_id_models_agree : forall pos, Model.LexSet.oov_id pos = wid_oov pos.
+Proof. exact (fun pos => eq_refl). Qed.
+Print Assumptions C13_oov_id_models_agree.
